@@ -105,6 +105,12 @@ def entry_points(rng):
     E.append(("Ts()", lambda u: canon(nap.Ts(V(tk, u), time_units=u))))
     E.append(("Ts(support)", lambda u: canon(nap.Ts(V(tk, u), time_units=u, time_support=ep_s()))))
     E.append(("Tsd()", lambda u: canon(nap.Tsd(V(tks, u), d, time_units=u))))
+    # unit AND support given together (the support itself is built in seconds)
+    E.append(("Tsd(support)", lambda u: canon(nap.Tsd(V(tks, u), d, time_units=u, time_support=ep_s()))))
+    E.append(("TsdFrame(support)", lambda u: canon(nap.TsdFrame(V(tks, u), np.stack([d, d], 1), time_units=u, time_support=ep_s()))))
+    E.append(("TsdTensor(support)", lambda u: canon(nap.TsdTensor(V(tks, u), np.stack([d, d], 1).reshape(len(tks), 2, 1), time_units=u, time_support=ep_s()))))
+    E.append(("Tsd(unsorted,support)", lambda u: canon(nap.Tsd(V(tk, u), d2, time_units=u, time_support=ep_s()))))
+    E.append(("IntervalSet(pairs)", lambda u: canon(nap.IntervalSet(np.stack([V(epk[0], u), V(epk[1], u)], 1), time_units=u))))
     E.append(("TsdFrame()", lambda u: canon(nap.TsdFrame(V(tks, u), np.stack([d, d], 1), time_units=u))))
     E.append(("TsdTensor()", lambda u: canon(nap.TsdTensor(V(tks, u), np.stack([d, d], 1).reshape(len(tks), 2, 1), time_units=u))))
     E.append(("IntervalSet()", lambda u: canon(nap.IntervalSet(start=V(epk[0], u), end=V(epk[1], u), time_units=u))))
